@@ -17,6 +17,9 @@ func newFuncVC(P *Program, fn *ssa.Function, c *FuncContract) *FuncVC {
 		edgeCond: map[[2]int]Term{}, loops: map[*ssa.BasicBlock]*loopInfo{}, oblCount: map[string]int{},
 		calleesUsed: map[string]bool{}, assumptions: map[string]bool{}, tableFns: map[ssa.Value]*tableRef{}, oblBlk: -1}
 	fv.name = shortFuncName(fn)
+	if c != nil && c.AbsFloat {
+		fv.e.setAbsFloat()
+	}
 	return fv
 }
 
@@ -289,6 +292,17 @@ func (fv *FuncVC) loopEnv(li *loopInfo, st *State, phiVal func(*ssa.Phi) Term) *
 		}
 	}
 	fv.bindLocals(env, li.head, st)
+	// aliases of enclosing loops keep denoting the enclosing loop's current iteration
+	for _, outer := range fv.loopList {
+		if outer != li && outer.body[li.head] && outer.spec != nil {
+			fv.bindLoopAliases(env, outer, func(phi *ssa.Phi) Term { return fv.val(phi) })
+		}
+	}
+	fv.bindLoopAliases(env, li, phiVal)
+	return env
+}
+
+func (fv *FuncVC) bindLoopAliases(env *Env, li *loopInfo, phiVal func(*ssa.Phi) Term) {
 	var carried []*ssa.Phi
 	var keyPhi *ssa.Phi
 	for _, ins := range li.head.Instrs {
@@ -318,7 +332,6 @@ func (fv *FuncVC) loopEnv(li *loopInfo, st *State, phiVal func(*ssa.Phi) Term) *
 		}
 		env.vars[alias] = TV{phiVal(carried[i]), carried[i].Type()}
 	}
-	return env
 }
 
 func (fv *FuncVC) processBlock(b *ssa.BasicBlock) {
@@ -668,7 +681,7 @@ func (fv *FuncVC) unop(x *ssa.UnOp) {
 		fv.defReg(x, not(fv.val(x.X)))
 	case token.SUB:
 		if isFloat(x.Type()) {
-			fv.defReg(x, app("fp.neg", fv.val(x.X)))
+			fv.defReg(x, fv.e.fop("fp.neg", fv.val(x.X)))
 		} else {
 			fv.defReg(x, fv.wrap(app("-", fv.val(x.X)), x.Type()))
 		}
@@ -716,7 +729,7 @@ func (fv *FuncVC) binop(op token.Token, X, Y ssa.Value, rt types.Type, pos token
 		var r Term
 		switch {
 		case isFloat(t):
-			r = app("fp.eq", a, b)
+			r = fv.e.fop("fp.eq", a, b)
 		default:
 			// comparisons with nil constants
 			if c, ok := Y.(*ssa.Const); ok && c.Value == nil && !isBasic(t) {
@@ -739,7 +752,7 @@ func (fv *FuncVC) binop(op token.Token, X, Y ssa.Value, rt types.Type, pos token
 		m := map[token.Token]string{token.ADD: "+", token.SUB: "-", token.MUL: "*"}
 		if isFloat(t) {
 			fm := map[token.Token]string{token.ADD: "fp.add", token.SUB: "fp.sub", token.MUL: "fp.mul"}
-			return app(fm[op], "RNE", a, b)
+			return fv.e.fop(fm[op], a, b)
 		}
 		if isString(t) {
 			return app("str_concat", a, b)
@@ -747,7 +760,7 @@ func (fv *FuncVC) binop(op token.Token, X, Y ssa.Value, rt types.Type, pos token
 		return fv.wrap(app(m[op], a, b), rt)
 	case token.QUO:
 		if isFloat(t) {
-			return app("fp.div", "RNE", a, b)
+			return fv.e.fop("fp.div", a, b)
 		}
 		fv.oblige("div0", "div0", panicProps, not(eq(b, "0")), pos, "divisor is not zero")
 		return fv.wrap(tdiv(a, b), rt)
